@@ -26,7 +26,7 @@ structure TInv (t : TSys) : Prop where
   notReap : t.sys.pc ≠ .reap
   pend : ∀ σ, σ ∈ t.sigPending → σ ∈ t.traps
   out_done : t.out = none ↔ t.sys.pc ≠ .done
-  job_open : t.out = none → jobDone t.sys.log t.job = none
+  job_open : t.out = none → t.single = false → jobDone t.sys.log t.job = none
   fin_ok : ∀ i r, t.out = some (.finished i r) → i = t.job ∧ (i, r) ∈ t.sys.log
   trap_ok : ∀ σ, t.out = some (.trapped σ) → σ ∈ t.traps
 
@@ -63,6 +63,53 @@ theorem childStep_frame {s s' : Sys} {i : Nat} (hs : childStep s i = some s') :
     · simp at hs
   · simp at hs
 
+theorem noteChld_mem {t : TSys} {s : Sys} {x : Nat} (h : x ∈ noteChld t s) :
+    x ∈ t.sigPending ∨ (x = SIGCHLD_NO ∧ SIGCHLD_NO ∈ t.traps) := by
+  unfold noteChld at h
+  split at h
+  · rename_i hc
+    simp at hc
+    simp at h
+    rcases h with h | h
+    · exact Or.inl h
+    · exact Or.inr ⟨h, hc.1.2⟩
+  · exact Or.inl h
+
+theorem noteChld_same {t : TSys} {s : Sys} (h : s.pending = t.sys.pending) : noteChld t s = t.sigPending := by
+  unfold noteChld
+  cases hp : t.sys.pending <;> simp [h, hp]
+
+theorem noteChld_length (t : TSys) (s : Sys) : (noteChld t s).length ≤ t.sigPending.length + 1 := by
+  unfold noteChld; split <;> simp
+
+theorem noteChld_prefix (t : TSys) (s : Sys) : ∃ l, noteChld t s = t.sigPending ++ l := by
+  unfold noteChld; split
+  · exact ⟨_, rfl⟩
+  · exact ⟨[], by simp⟩
+
+/-- the exit of a child (the only step that raises SIGCHLD) takes two units off the measure -/
+theorem measure_child2 {s s' : Sys} (i : Nat) (hs : childStep s i = some s') :
+    measure s' + 2 ≤ measure s ∨ s'.pending = s.pending := by
+  unfold childStep at hs
+  split at hs
+  · rename_i c hc
+    split at hs
+    · right
+      simp only [Option.some.injEq] at hs; subst hs; rfl
+    · left
+      rename_i r hst
+      simp only [Option.some.injEq] at hs; subst hs
+      have := childrenW_set hc { state := PState.halted r, changed := true }
+      have hr : ∀ t : Sys, measure (raiseSigchld t) ≤ measure t + 2 := by
+        intro t; unfold raiseSigchld measure
+        cases t.disp <;> simp <;> split <;> omega
+      have h2 := hr { s with children := s.children.set i { state := PState.halted r, changed := true } }
+      simp only [measure, childW, hst] at this h2 ⊢
+      simp at this
+      split at this <;> omega
+    · simp at hs
+  · simp at hs
+
 /-- the invariant holds when the built-in starts (between two commands: `pc = done`) -/
 theorem tinv_start {s : Sys} (h : Inv s) (_hpc : s.pc = .done) (j : Nat) (traps : List Nat)
     (senders : List (Nat × Nat)) : TInv (TSys.start s j traps senders) := by
@@ -77,7 +124,7 @@ theorem tinv_start {s : Sys} (h : Inv s) (_hpc : s.pc = .done) (j : Nat) (traps 
     exact ⟨rfl, jobDone_mem hr⟩
   · rename_i hr
     refine ⟨⟨h.changed_halted, by intro h'; simp at h', by intro h'; simp at h', by intro h'; simp at h',
-      h.once, h.logged⟩, rfl, by simp, by simp, by simp, fun _ => hr, by simp, by simp⟩
+      h.once, h.logged⟩, rfl, by simp, by simp, by simp, fun _ _ => hr, by simp, by simp⟩
 
 theorem tinv_parent {t t' : TSys} (h : TInv t) (hs : tparentStep t = some t') : TInv t' := by
   unfold tparentStep at hs
@@ -99,20 +146,24 @@ theorem tinv_parent {t t' : TSys} (h : TInv t) (hs : tparentStep t = some t') : 
         obtain ⟨t1, t2, t3⟩ := inv_take hI hc hch
         rw [hst] at t2 t3
         split at hs
-        · rename_i r hr
-          simp only [Option.some.injEq] at hs; subst hs
-          refine ⟨⟨t1, by intro h'; simp at h', by intro h'; simp at h', by intro h'; simp at h', t2, t3⟩,
-            h.target, by simp, h.pend, by simp, by simp, ?_, by simp⟩
-          intro i' r' h'
-          simp at h'
-          obtain ⟨rfl, rfl⟩ := h'
-          exact ⟨rfl, jobDone_mem hr⟩
-        · rename_i hr
-          simp only [Option.some.injEq] at hs; subst hs
-          refine ⟨⟨t1, by intro h'; simp at h', by intro h'; simp at h', by intro h'; simp at h', t2, t3⟩,
-            h.target, by simp, h.pend, by simp [hout], fun _ => hr, ?_, ?_⟩
-          · intro i' r' h'; simp [hout] at h'
-          · intro σ h'; simp [hout] at h'
+        · simp only [Option.some.injEq] at hs; subst hs
+          exact ⟨⟨t1, by intro h'; simp at h', by intro h'; simp at h', by intro h'; simp at h', t2, t3⟩,
+            h.target, by simp, h.pend, by simp, by simp, by simp, by simp⟩
+        · split at hs
+          · rename_i r hr
+            simp only [Option.some.injEq] at hs; subst hs
+            refine ⟨⟨t1, by intro h'; simp at h', by intro h'; simp at h', by intro h'; simp at h', t2, t3⟩,
+              h.target, by simp, h.pend, by simp, by simp, ?_, by simp⟩
+            intro i' r' h'
+            simp at h'
+            obtain ⟨rfl, rfl⟩ := h'
+            exact ⟨rfl, jobDone_mem hr⟩
+          · rename_i hr
+            simp only [Option.some.injEq] at hs; subst hs
+            refine ⟨⟨t1, by intro h'; simp at h', by intro h'; simp at h', by intro h'; simp at h', t2, t3⟩,
+              h.target, by simp, h.pend, by simp [hout], fun _ _ => hr, ?_, ?_⟩
+            · intro i' r' h'; simp [hout] at h'
+            · intro σ h'; simp [hout] at h'
       · rename_i hw
         simp only [Option.some.injEq] at hs; subst hs
         obtain ⟨⟨i, c, hc, hm, hal⟩, hno⟩ := sysWait_none hw
@@ -152,8 +203,12 @@ theorem tinv_child {t t' : TSys} {i : Nat} (h : TInv t) (hs : tchildStep t i = s
       | some s =>
         simp [hcs] at hs; subst hs
         obtain ⟨f1, f2, f3, f4, f5⟩ := childStep_frame hcs
-        refine ⟨inv_child i h.inv hcs, by simp [f3, h.target], by simp [f1, h.notReap], h.pend,
+        refine ⟨inv_child i h.inv hcs, by simp [f3, h.target], by simp [f1, h.notReap], ?_,
           by simp [f1, h.out_done], by simp [f2]; exact h.job_open, by simp [f2]; exact h.fin_ok, h.trap_ok⟩
+        intro σ hσ
+        rcases noteChld_mem hσ with h1 | ⟨h1, h2⟩
+        · exact h.pend σ h1
+        · rw [h1]; exact h2
   · simp at hs
 
 theorem tinv_send {t t' : TSys} {k : Nat} (h : TInv t) (hs : tsendStep t k = some t') : TInv t' := by
@@ -207,8 +262,11 @@ theorem tmeasure_parent {t t' : TSys} (hs : tparentStep t = some t') :
         split at hs
         · simp only [Option.some.injEq] at hs; subst hs
           simp only [tmeasure, measure, hpc, pcW]; omega
-        · simp only [Option.some.injEq] at hs; subst hs
-          simp only [tmeasure, measure, hpc, pcW]; omega
+        · split at hs
+          · simp only [Option.some.injEq] at hs; subst hs
+            simp only [tmeasure, measure, hpc, pcW]; omega
+          · simp only [Option.some.injEq] at hs; subst hs
+            simp only [tmeasure, measure, hpc, pcW]; omega
       · simp only [Option.some.injEq] at hs; subst hs
         simp only [tmeasure, measure, hpc, pcW]; omega
       · simp only [Option.some.injEq] at hs; subst hs
@@ -245,8 +303,12 @@ theorem tmeasure_child {t t' : TSys} {i : Nat} (hs : tchildStep t i = some t') :
       | none => simp [hcs] at hs
       | some s =>
         simp [hcs] at hs; subst hs
-        have := measure_child i hcs
-        simp only [tmeasure]; omega
+        have h1 := measure_child i hcs
+        have h3 := noteChld_length t s
+        rcases measure_child2 i hcs with h2 | h2
+        · simp only [tmeasure]; omega
+        · have h4 := noteChld_same (t := t) h2
+          simp only [tmeasure, h4]; omega
   · simp at hs
 
 theorem tmeasure_send {t t' : TSys} {k : Nat} (hs : tsendStep t k = some t') :
@@ -287,7 +349,9 @@ theorem tnot_stuck {t : TSys} (h : TInv t) (hout : t.out = none) : ∃ l t', tst
     refine ⟨.parent, ?_⟩
     simp only [tstep, tparentStep, hout, hpc]
     split
-    · split <;> exact ⟨_, rfl⟩
+    · split
+      · exact ⟨_, rfl⟩
+      · split <;> exact ⟨_, rfl⟩
     · exact ⟨_, rfl⟩
     · exact ⟨_, rfl⟩
   | reap => exact absurd hpc h.notReap
@@ -349,7 +413,11 @@ theorem armed_step {t t' : TSys} {σ : Nat} {log0 : List (Nat × Result)} (l : T
           | some s =>
             simp [hcs] at hs; subst hs
             obtain ⟨f1, f2, _, _, _⟩ := childStep_frame hcs
-            exact ⟨hout, by simp [f1, hpc], hft, by simp [f2, hlog]⟩
+            refine ⟨hout, by simp [f1, hpc], ?_, by simp [f2, hlog]⟩
+            obtain ⟨l, hl⟩ := noteChld_prefix t s
+            simp only [hl]
+            unfold firstTrapped at hft ⊢
+            rw [List.find?_append, hft]; rfl
       · simp at hs
     | send k =>
       left
@@ -455,7 +523,7 @@ theorem sole_step {t t' : TSys} {σ : Nat} (l : TLabel) (h : Sole t σ) (hs : ts
               | succ f' =>
                 simp only [childStep, hc, hst, Option.some.injEq] at hcs
                 subst hcs
-                refine ⟨⟨h.out, h.pc, h.pending, h.nosig, ?_, ?_, h.sender, h.sigs, h.trapped⟩, rfl⟩
+                refine ⟨⟨h.out, h.pc, h.pending, (noteChld_same (by rfl)).trans h.nosig, ?_, ?_, h.sender, h.sigs, h.trapped⟩, rfl⟩
                 · intro k c' hk hkj
                   simp only [set_get hc, hkj, if_false] at hk
                   exact h.others k c' hk hkj
@@ -499,20 +567,23 @@ theorem sole_steps {t u : TSys} {σ : Nat} (h : TSteps t u) (hs : Sole t σ) :
     · exact Or.inr (armed_step l h2 hst)
 
 /-- no step changes which job is awaited or which signals have a trap action -/
-theorem tstep_frame {v w : TSys} (l : TLabel) (hs : tstep v l = some w) : w.job = v.job ∧ w.traps = v.traps := by
+theorem tstep_frame {v w : TSys} (l : TLabel) (hs : tstep v l = some w) :
+    w.job = v.job ∧ w.traps = v.traps ∧ w.single = v.single := by
   cases l with
   | parent =>
     simp only [tstep, tparentStep] at hs
     split at hs
     · simp at hs
     · split at hs
-      · simp at hs; subst hs; exact ⟨rfl, rfl⟩
+      · simp at hs; subst hs; exact ⟨rfl, rfl, rfl⟩
       · split at hs
-        · split at hs <;> (simp at hs; subst hs; exact ⟨rfl, rfl⟩)
-        · simp at hs; subst hs; exact ⟨rfl, rfl⟩
-        · simp at hs; subst hs; exact ⟨rfl, rfl⟩
+        · split at hs
+          · simp at hs; subst hs; exact ⟨rfl, rfl, rfl⟩
+          · split at hs <;> (simp at hs; subst hs; exact ⟨rfl, rfl, rfl⟩)
+        · simp at hs; subst hs; exact ⟨rfl, rfl, rfl⟩
+        · simp at hs; subst hs; exact ⟨rfl, rfl, rfl⟩
       · split at hs
-        · split at hs <;> (simp at hs; subst hs; exact ⟨rfl, rfl⟩)
+        · split at hs <;> (simp at hs; subst hs; exact ⟨rfl, rfl, rfl⟩)
         · simp at hs
       · simp at hs
   | child i =>
@@ -522,17 +593,90 @@ theorem tstep_frame {v w : TSys} (l : TLabel) (hs : tstep v l = some w) : w.job 
       · simp at hs
       · cases hcs : childStep v.sys i with
         | none => simp [hcs] at hs
-        | some s' => simp [hcs] at hs; subst hs; exact ⟨rfl, rfl⟩
+        | some s' => simp [hcs] at hs; subst hs; exact ⟨rfl, rfl, rfl⟩
     · simp at hs
   | send k =>
     simp only [tstep, tsendStep] at hs
     split at hs
     · split at hs
       · split at hs
-        · simp at hs; subst hs; exact ⟨rfl, rfl⟩
+        · simp at hs; subst hs; exact ⟨rfl, rfl, rfl⟩
         · simp at hs
       · simp at hs
     · simp at hs
+
+/-! ### a trap on SIGCHLD itself -/
+
+/-- `trap … CHLD; cmd & wait $!`: the shell is blocked in `wait` for job `j`, its only live child; SIGCHLD has a
+    trap action, the handler is installed, nobody sends anything. -/
+structure SoleChld (t : TSys) : Prop where
+  out : t.out = none
+  pc : t.sys.pc = .await
+  disp : t.sys.disp = .catch
+  pending : t.sys.pending = false
+  nosig : t.sigPending = []
+  others : ∀ (i : Nat) (c : Child), t.sys.children[i]? = some c → i ≠ t.job → c.state.isAlive = false
+  jobAlive : ∃ c, t.sys.children[t.job]? = some c ∧ c.state.isAlive = true
+  quiet : t.senders = []
+  trapped : SIGCHLD_NO ∈ t.traps
+
+theorem sole_chld_step {t t' : TSys} (l : TLabel) (h : SoleChld t) (hs : tstep t l = some t') :
+    (SoleChld t' ∧ t'.sys.log = t.sys.log) ∨ Armed t' SIGCHLD_NO t.sys.log := by
+  cases l with
+  | parent => simp [tstep, tparentStep, h.out, h.pc, h.pending, h.nosig] at hs
+  | send k => simp [tstep, tsendStep, h.quiet] at hs
+  | child i =>
+    simp only [tstep, tchildStep] at hs
+    split at hs
+    · rename_i c hc
+      split at hs
+      · simp at hs
+      · cases hcs : childStep t.sys i with
+        | none => simp [hcs] at hs
+        | some s =>
+          simp [hcs] at hs; subst hs
+          by_cases hij : i = t.job
+          · subst hij
+            cases hst : c.state with
+            | halted r =>
+              obtain ⟨c', hc', hal⟩ := h.jobAlive
+              rw [hc] at hc'; simp at hc'; subst hc'
+              simp [hst, PState.isAlive] at hal
+            | running f r =>
+              cases f with
+              | succ f' =>
+                left
+                simp only [childStep, hc, hst, Option.some.injEq] at hcs
+                subst hcs
+                refine ⟨⟨h.out, h.pc, h.disp, h.pending, (noteChld_same (by rfl)).trans h.nosig, ?_, ?_, h.quiet,
+                  h.trapped⟩, rfl⟩
+                · intro k c' hk hkj
+                  simp only [set_get hc, hkj, if_false] at hk
+                  exact h.others k c' hk hkj
+                · exact ⟨{ state := .running f' r, changed := c.changed }, by simp [set_get hc],
+                    by simp [PState.isAlive]⟩
+              | zero =>
+                right
+                simp only [childStep, hc, hst, Option.some.injEq] at hcs
+                subst hcs
+                have htr : t.traps.contains SIGCHLD_NO = true := by simpa using h.trapped
+                refine ⟨h.out, by simp [raiseSigchld, h.disp, h.pc], ?_, by simp [raiseSigchld, h.disp]⟩
+                simp [noteChld, raiseSigchld, h.disp, h.pending, h.nosig, htr, firstTrapped, h.trapped]
+          · have := childStep_dead hc (h.others i c hc hij)
+            rw [this] at hcs; simp at hcs
+    · simp at hs
+
+theorem sole_chld_steps {t u : TSys} (h : TSteps t u) (hs : SoleChld t) :
+    (SoleChld u ∧ u.sys.log = t.sys.log) ∨ Armed u SIGCHLD_NO t.sys.log ∨ Fired u SIGCHLD_NO t.sys.log := by
+  induction h with
+  | refl => exact Or.inl ⟨hs, rfl⟩
+  | tail l _ hst ih =>
+    rcases ih with ⟨h1, hl⟩ | h2
+    · rcases sole_chld_step l h1 hst with ⟨h3, hl3⟩ | h3
+      · exact Or.inl ⟨h3, hl3.trans hl⟩
+      · right; left; rw [← hl]; exact h3
+    · exact Or.inr (armed_step l h2 hst)
+
 
 /-! ### the driver's scheduler -/
 
@@ -556,18 +700,644 @@ theorem bstep_tsteps {t t' : TSys} (l : TLabel) (hs : bstep t l = some t') : TSt
   | child i => exact .tail (.child i) (.refl t) hs
   | send k => exact .tail (.send k) (.refl t) hs
 
-/-- the executable scheduler of the driver only takes steps of the system -/
-theorem trun_tsteps (fuel : Nat) (choices : List Nat) (t : TSys) : TSteps t (trun fuel choices t) := by
+
+/-! ### under the executor's scheduling (a turn of the shell is a burst): any other children -/
+
+/-- `BSteps t u`: a run of the system as the virtual executor schedules it — the shell, once scheduled, runs until
+    it blocks (`Concurrent::run_virtual`), children and senders step one at a time -/
+inductive BSteps : TSys → TSys → Prop where
+  | refl (t : TSys) : BSteps t t
+  | tail {t u v : TSys} (l : TLabel) : BSteps t u → bstep u l = some v → BSteps t v
+
+theorem BSteps.trans {s t u : TSys} (h1 : BSteps s t) (h2 : BSteps t u) : BSteps s u := by
+  induction h2 with
+  | refl => exact h1
+  | tail l _ hs ih => exact .tail l ih hs
+
+theorem BSteps.tsteps {t u : TSys} (h : BSteps t u) : TSteps t u := by
+  induction h with
+  | refl => exact .refl _
+  | tail l _ hs ih => exact TSteps.trans ih (bstep_tsteps l hs)
+
+/-- a full turn ends where the shell cannot move -/
+theorem parentBurst_blocked (n : Nat) (t : TSys) (h : tmeasure t ≤ n) : tparentStep (parentBurst n t) = none := by
+  induction n generalizing t with
+  | zero =>
+    unfold parentBurst
+    cases hp : tparentStep t with
+    | none => rfl
+    | some t' => have := tmeasure_parent hp; omega
+  | succ n ih =>
+    unfold parentBurst
+    cases hp : tparentStep t with
+    | none => exact hp
+    | some t' =>
+      exact ih t' (by have := tmeasure_parent hp; omega)
+
+theorem parentTurn_blocked (t : TSys) : tparentStep (parentTurn t) = none :=
+  parentBurst_blocked _ t (Nat.le_refl _)
+
+/-- Mid-turn state of the shell waiting for job `j` that is alive, unreported, not recorded as finished and still
+    has to send `σ`; nothing but SIGCHLD has arrived.  No condition on the other children. -/
+structure Waiting (t : TSys) (σ : Nat) : Prop where
+  out : t.out = none
+  pcs : t.sys.pc = .enable ∨ t.sys.pc = .poll ∨ t.sys.pc = .await
+  nosig : t.sigPending = []
+  jobAlive : ∃ c, t.sys.children[t.job]? = some c ∧ c.state.isAlive = true ∧ c.changed = false
+  open_ : jobDone t.sys.log t.job = none
+  sender : ∃ e, e ∈ t.senders ∧ e.1 = t.job
+  sigs : ∀ e, e ∈ t.senders → e.2 = σ
+  trapped : σ ∈ t.traps
+  /-- SIGCHLD itself has no trap action (else the exit of any other child interrupts the built-in as well) -/
+  nochld : SIGCHLD_NO ∉ t.traps
+  /-- `wait_while_running(job_status(job))`, not the single call of a bare `wait` -/
+  multi : t.single = false
+
+theorem noteChld_notrap {t : TSys} (s : Sys) (h : SIGCHLD_NO ∉ t.traps) : noteChld t s = t.sigPending := by
+  unfold noteChld
+  simp
+  intro _ _ h3; exact absurd h3 h
+
+theorem jobDone_logOf {log : List (Nat × Result)} {i j : Nat} (st : PState) (hij : i ≠ j) :
+    jobDone (logOf i st ++ log) j = jobDone log j := by
+  cases st with
+  | running f r => simp [logOf]
+  | halted r =>
+    have : (i == j) = false := by simpa using hij
+    simp [logOf, jobDone, this]
+
+theorem childStep_other {s s' : Sys} {i j : Nat} (hs : childStep s i = some s') (hij : j ≠ i) :
+    s'.children[j]? = s.children[j]? := by
+  unfold childStep at hs
+  split at hs
+  · rename_i c hc
+    split at hs
+    · simp only [Option.some.injEq] at hs; subst hs
+      simp [set_get hc, hij]
+    · simp only [Option.some.injEq] at hs; subst hs
+      unfold raiseSigchld
+      split <;> simp [set_get hc, hij]
+    · simp at hs
+  · simp at hs
+
+theorem waiting_parent {t t' : TSys} {σ : Nat} (h : Waiting t σ) (hs : tparentStep t = some t') :
+    Waiting t' σ := by
+  obtain ⟨cj, hcj, halj, hchj⟩ := h.jobAlive
+  unfold tparentStep at hs
+  simp only [h.out] at hs
+  split at hs
+  · simp only [Option.some.injEq] at hs; subst hs
+    exact ⟨by simp, Or.inr (Or.inl rfl), h.nosig, ⟨cj, hcj, halj, hchj⟩, h.open_, h.sender, h.sigs, h.trapped, h.nochld, h.multi⟩
+  · split at hs
+    · rename_i i st hw
+      obtain ⟨c, hc, hch, _, _⟩ := sysWait_state hw
+      have hij : i ≠ t.job := by
+        intro e; subst e; rw [hcj] at hc; simp at hc; subst hc; simp [hchj] at hch
+      have hopen : jobDone (logOf i st ++ t.sys.log) t.job = none := by
+        rw [jobDone_logOf st hij]; exact h.open_
+      simp only [h.multi, hopen] at hs
+      simp only [Bool.false_eq_true, if_false, Option.some.injEq] at hs; subst hs
+      refine ⟨by simp, Or.inl rfl, h.nosig, ⟨cj, ?_, halj, hchj⟩, hopen, h.sender, h.sigs, h.trapped, h.nochld, rfl⟩
+      simp only [take_get hc]
+      have : ¬ t.job = i := fun e => hij e.symm
+      simp [this, hcj]
+    · simp only [Option.some.injEq] at hs; subst hs
+      exact ⟨by simp, Or.inr (Or.inr rfl), h.nosig, ⟨cj, hcj, halj, hchj⟩, h.open_, h.sender, h.sigs, h.trapped, h.nochld, h.multi⟩
+    · rename_i hw
+      have := (sysWait_any_echild.mp hw t.job cj hcj).2
+      simp [halj] at this
+  · split at hs
+    · simp only [h.nosig, firstTrapped, List.find?_nil, Option.some.injEq] at hs; subst hs
+      exact ⟨by simp, Or.inr (Or.inl rfl), rfl, ⟨cj, hcj, halj, hchj⟩, h.open_, h.sender, h.sigs, h.trapped, h.nochld, h.multi⟩
+    · simp at hs
+  · rename_i h1 h2 h3
+    rcases h.pcs with e | e | e
+    · exact absurd e h1
+    · exact absurd e h2
+    · exact absurd e h3
+
+theorem waiting_burst {t : TSys} {σ : Nat} (n : Nat) (h : Waiting t σ) : Waiting (parentBurst n t) σ := by
+  induction n generalizing t with
+  | zero => exact h
+  | succ n ih =>
+    unfold parentBurst
+    cases hp : tparentStep t with
+    | none => exact h
+    | some t' => exact ih (waiting_parent h hp)
+
+/-- a waiting shell that cannot move is blocked in `wait_for_signals` -/
+theorem waiting_blocked {t : TSys} {σ : Nat} (h : Waiting t σ) (hb : tparentStep t = none) :
+    t.sys.pc = .await := by
+  rcases h.pcs with e | e | e
+  · simp [tparentStep, h.out, e] at hb
+  · simp only [tparentStep, h.out, e, h.multi] at hb
+    split at hb
+    · simp only [Bool.false_eq_true, if_false] at hb
+      split at hb <;> simp at hb
+    · simp at hb
+    · simp at hb
+  · exact e
+
+theorem armed_burst {t : TSys} {σ : Nat} {log0 : List (Nat × Result)} (n : Nat)
+    (h : Armed t σ log0 ∨ Fired t σ log0) : Armed (parentBurst n t) σ log0 ∨ Fired (parentBurst n t) σ log0 :=
+  armed_steps (parentBurst_tsteps n t) h
+
+/-- one scheduling decision of the executor from a blocked waiting state -/
+theorem waiting_bstep {t t' : TSys} {σ : Nat} (l : TLabel) (h : Waiting t σ) (hpc : t.sys.pc = .await)
+    (hs : bstep t l = some t') :
+    (Waiting t' σ ∧ t'.sys.pc = .await ∧ jobDone t'.sys.log t'.job = none) ∨ Armed t' σ t'.sys.log := by
+  obtain ⟨cj, hcj, halj, hchj⟩ := h.jobAlive
+  cases l with
+  | parent =>
+    left
+    simp only [bstep] at hs
+    cases hp : tparentStep t with
+    | none => simp [hp] at hs
+    | some u =>
+      simp [hp] at hs; subst hs
+      have hw := waiting_burst (tmeasure t) h
+      exact ⟨hw, waiting_blocked hw (parentTurn_blocked t), hw.open_⟩
+  | child i =>
+    left
+    simp only [bstep, tstep, tchildStep] at hs
+    split at hs
+    · rename_i c hc
+      split at hs
+      · simp at hs
+      · rename_i hb
+        cases hcs : childStep t.sys i with
+        | none => simp [hcs] at hs
+        | some s =>
+          simp [hcs] at hs; subst hs
+          obtain ⟨f1, f2, _, _, _⟩ := childStep_frame hcs
+          have hjob : ∃ c', s.children[t.job]? = some c' ∧ c'.state.isAlive = true ∧ c'.changed = false := by
+            by_cases hij : i = t.job
+            · subst hij
+              rw [hcj] at hc; simp at hc; subst hc
+              obtain ⟨e, he, hej⟩ := h.sender
+              have hany : t.senders.any (fun e => e.1 == t.job) = true :=
+                List.any_eq_true.mpr ⟨e, he, by simp [hej]⟩
+              cases hst : cj.state with
+              | halted r => simp [hst, PState.isAlive] at halj
+              | running f r =>
+                cases f with
+                | zero => exact absurd ⟨by simp [hst, PState.fin], hany⟩ hb
+                | succ f' =>
+                  simp only [childStep, hcj, hst, Option.some.injEq] at hcs
+                  subst hcs
+                  exact ⟨{ state := .running f' r, changed := cj.changed }, by simp [set_get hcj],
+                    by simp [PState.isAlive], hchj⟩
+            · -- another child moves: the job's entry is untouched
+              refine ⟨cj, ?_, halj, hchj⟩
+              rw [childStep_other hcs (fun e => hij e.symm)]; exact hcj
+          exact ⟨⟨h.out, by simp [f1, hpc], (noteChld_notrap s h.nochld).trans h.nosig, hjob,
+            by simp [f2]; exact h.open_, h.sender, h.sigs, h.trapped, h.nochld, h.multi⟩, by simp [f1, hpc],
+            by simp [f2]; exact h.open_⟩
+    · simp at hs
+  | send k =>
+    right
+    simp only [bstep, tstep, tsendStep] at hs
+    split at hs
+    · rename_i i σ' hk
+      split at hs
+      · split at hs
+        · simp only [Option.some.injEq] at hs; subst hs
+          have hσ : σ' = σ := h.sigs (i, σ') (List.mem_of_getElem? hk)
+          subst hσ
+          have htr : σ' ∈ t.traps := h.trapped
+          exact ⟨h.out, hpc, by simp [h.nosig, htr, firstTrapped], rfl⟩
+        · simp at hs
+      · simp at hs
+    · simp at hs
+
+
+theorem tsteps_frame {a b : TSys} (hab : TSteps a b) : b.job = a.job ∧ b.traps = a.traps ∧ b.single = a.single := by
+  induction hab with
+  | refl => exact ⟨rfl, rfl, rfl⟩
+  | tail l _ hs ih =>
+    have := tstep_frame l hs
+    exact ⟨this.1.trans ih.1, this.2.1.trans ih.2.1, this.2.2.trans ih.2.2⟩
+
+/-- what holds between the scheduling decisions of the executor once the shell is blocked waiting for the job:
+    still waiting (blocked, job not recorded as finished), or the trapped signal has arrived and nothing has been
+    handed out since, or the built-in has ended `Trapped` -/
+def Race (j σ : Nat) (u : TSys) : Prop :=
+  u.job = j ∧
+  ((Waiting u σ ∧ u.sys.pc = .await) ∨
+   (∃ log0, jobDone log0 j = none ∧ (Armed u σ log0 ∨ Fired u σ log0)))
+
+theorem race_bstep {j σ : Nat} {u v : TSys} (l : TLabel) (h : Race j σ u) (hs : bstep u l = some v) :
+    Race j σ v := by
+  obtain ⟨hj, h⟩ := h
+  have hjv : v.job = j := ((tsteps_frame (bstep_tsteps l hs)).1).trans hj
+  refine ⟨hjv, ?_⟩
+  rcases h with ⟨hw, hpc⟩ | ⟨log0, hopen, ha⟩
+  · rcases waiting_bstep l hw hpc hs with ⟨h1, h2, _⟩ | h1
+    · exact Or.inl ⟨h1, h2⟩
+    · right
+      refine ⟨v.sys.log, ?_, Or.inl h1⟩
+      -- the log at the moment the signal arrives is the log of the waiting state: a sender's step does not touch it
+      cases l with
+      | send k =>
+        simp only [bstep, tstep, tsendStep] at hs
+        split at hs
+        · split at hs
+          · split at hs
+            · simp only [Option.some.injEq] at hs; subst hs
+              rw [← hj]; exact hw.open_
+            · simp at hs
+          · simp at hs
+        · simp at hs
+      | parent =>
+        have hw' := waiting_bstep .parent hw hpc hs
+        rcases hw' with ⟨_, _, h3⟩ | h3
+        · rw [← hjv]; exact h3
+        · -- a turn of the shell from a waiting state stays waiting (no signal can arrive during it)
+          simp only [bstep] at hs
+          cases hp : tparentStep u with
+          | none => simp [hp] at hs
+          | some w =>
+            simp [hp] at hs; subst hs
+            have := (waiting_burst (tmeasure u) hw).open_
+            rw [← hjv]; exact this
+      | child i =>
+        have hw' := waiting_bstep (.child i) hw hpc hs
+        rcases hw' with ⟨_, _, h3⟩ | h3
+        · rw [← hjv]; exact h3
+        · have := h3.1
+          simp only [bstep, tstep, tchildStep] at hs
+          split at hs
+          · split at hs
+            · simp at hs
+            · cases hcs : childStep u.sys i with
+              | none => simp [hcs] at hs
+              | some s =>
+                simp [hcs] at hs; subst hs
+                obtain ⟨_, f2, _, _, _⟩ := childStep_frame hcs
+                simp only [f2]; rw [← hj]; exact hw.open_
+          · simp at hs
+  · right
+    refine ⟨log0, hopen, ?_⟩
+    cases l with
+    | parent =>
+      simp only [bstep] at hs
+      cases hp : tparentStep u with
+      | none => simp [hp] at hs
+      | some w => simp [hp] at hs; subst hs; exact armed_burst _ ha
+    | child i => exact armed_step (.child i) ha hs
+    | send k => exact armed_step (.send k) ha hs
+
+theorem race_bsteps {j σ : Nat} {t u : TSys} (h : BSteps t u) (hr : Race j σ t) : Race j σ u := by
+  induction h with
+  | refl => exact hr
+  | tail l _ hs ih => exact race_bstep l ih hs
+
+/-- the executable scheduler of the driver makes the executor's scheduling decisions -/
+theorem trun_bsteps (fuel : Nat) (choices : List Nat) (t : TSys) : BSteps t (trun fuel choices t) := by
   induction fuel generalizing choices t with
   | zero => exact .refl t
   | succ n ih =>
     unfold trun
     split
     · exact .refl t
-    · simp only
-      split
-      · rename_i t' ht'
-        exact TSteps.trans (bstep_tsteps _ ht') (ih _ _)
+    · split
       · exact .refl t
+      · simp only
+        split
+        · rename_i t' ht'
+          exact BSteps.trans (.tail _ (.refl t) ht') (ih choices.tail t')
+        · exact .refl t
+
+/-- the state `St.newJob` + the start of `wait $!` + the shell's first turn produce: blocked, waiting for the new
+    child, whatever the other children are -/
+theorem start_waiting {s : Sys} (hI : Inv s) (f n σ : Nat) (hσ : σ ≠ SIGCHLD_NO) :
+    let s' : Sys := { s with children := s.children ++ [{ state := .running f (.exited n) }] }
+    let t := parentTurn (TSys.start s' s.children.length [σ] [(s.children.length, σ)])
+    Waiting t σ ∧ t.sys.pc = .await ∧ t.job = s.children.length := by
+  intro s' t
+  have hopen : jobDone s'.log s.children.length = none := by
+    cases hjd : jobDone s'.log s.children.length with
+    | none => rfl
+    | some r =>
+      have hm : (s.children.length, r) ∈ s.log := jobDone_mem hjd
+      obtain ⟨c, hc, _⟩ := hI.logged _ _ hm
+      simp at hc
+  have hstart : TSys.start s' s.children.length [σ] [(s.children.length, σ)] =
+      { sys := { s' with target := .any, todo := [], pc := .enable }, job := s.children.length, traps := [σ],
+        senders := [(s.children.length, σ)] } := by
+    unfold TSys.start; rw [hopen]
+  have hw0 : Waiting (TSys.start s' s.children.length [σ] [(s.children.length, σ)]) σ := by
+    rw [hstart]
+    refine ⟨rfl, Or.inl rfl, rfl, ⟨{ state := .running f (.exited n) }, by simp [s'], by simp [PState.isAlive], rfl⟩,
+      hopen, ⟨(s.children.length, σ), by simp, rfl⟩, by simp, by simp, by simp; exact fun e => hσ e.symm, rfl⟩
+  have hw := waiting_burst (tmeasure (TSys.start s' s.children.length [σ] [(s.children.length, σ)])) hw0
+  refine ⟨hw, waiting_blocked hw (parentTurn_blocked _), ?_⟩
+  have := (tsteps_frame (parentBurst_tsteps (tmeasure (TSys.start s' s.children.length [σ] [(s.children.length, σ)]))
+    (TSys.start s' s.children.length [σ] [(s.children.length, σ)]))).1
+  show (parentTurn _).job = _
+  unfold parentTurn
+  rw [this, hstart]
+
+/-- the executable scheduler of the driver only takes steps of the system -/
+theorem trun_tsteps (fuel : Nat) (choices : List Nat) (t : TSys) : TSteps t (trun fuel choices t) :=
+  (trun_bsteps fuel choices t).tsteps
+
+
+/-! ### the operand loop (`tawaitJobs`) and the operand-less form (`tawaitAll`) -/
+
+theorem tinv_next {t : TSys} (h : TInv t) (j : Nat) : TInv (t.next j) := by
+  have hI := h.inv
+  unfold TSys.next
+  split
+  · rename_i r hr
+    refine ⟨⟨hI.changed_halted, by intro h'; simp at h', by intro h'; simp at h', by intro h'; simp at h',
+      hI.once, hI.logged⟩, rfl, by simp, h.pend, by simp, by simp, ?_, by simp⟩
+    intro i r' h'
+    simp at h'
+    obtain ⟨rfl, rfl⟩ := h'
+    exact ⟨rfl, jobDone_mem hr⟩
+  · rename_i hr
+    exact ⟨⟨hI.changed_halted, by intro h'; simp at h', by intro h'; simp at h', by intro h'; simp at h',
+      hI.once, hI.logged⟩, rfl, by simp, h.pend, by simp, fun _ _ => hr, by simp, by simp⟩
+
+theorem tinv_call {t : TSys} (h : TInv t) : TInv t.call := by
+  have hI := h.inv
+  exact ⟨⟨hI.changed_halted, by intro h'; simp [TSys.call] at h', by intro h'; simp [TSys.call] at h',
+    by intro h'; simp [TSys.call] at h', hI.once, hI.logged⟩, rfl, by simp [TSys.call], h.pend,
+    by simp [TSys.call], by intro _ h'; simp [TSys.call] at h', by simp [TSys.call], by simp [TSys.call]⟩
+
+theorem next_traps (t : TSys) (j : Nat) : (t.next j).traps = t.traps := by
+  unfold TSys.next; split <;> rfl
+
+/-- the job table after the operands `ops` have all been dealt with: every operand naming a job in the table
+    removes it (`job_status` → `jobs.remove`) -/
+def eraseOps : List Nat → List (Option Nat) → List Nat
+  | jobs, [] => jobs
+  | jobs, none :: t => eraseOps jobs t
+  | jobs, some i :: t => eraseOps (jobs.erase i) t
+
+theorem eraseOps_sub {jobs : List Nat} {ops : List (Option Nat)} {j : Nat} (h : j ∈ eraseOps jobs ops) :
+    j ∈ jobs := by
+  induction ops generalizing jobs with
+  | nil => exact h
+  | cons o t ih =>
+    cases o with
+    | none => exact ih h
+    | some i => exact List.mem_of_mem_erase (ih h)
+
+/-- what `tawaitJobs` guarantees whatever the scheduler `run` does (it only has to take steps of the system) -/
+structure OpsSound (traps : List Nat) (jobs : List Nat) (ops : List (Option Nat))
+    (res : List Nat × TSys × OpsOut) : Prop where
+  inv : TInv res.2.1
+  traps_eq : res.2.1.traps = traps
+  done_ : ∀ sts, res.2.2 = .done sts → sts.length = ops.length ∧ res.1 = eraseOps jobs ops
+  trapped_ : ∀ σ sts, res.2.2 = .trapped σ sts → σ ∈ traps ∧
+    ∃ pre i rest, ops = pre ++ some i :: rest ∧ sts.length = pre.length ∧ res.1 = eraseOps jobs pre ∧ i ∈ res.1
+  failed_ : ∀ sts, res.2.2 = .failed sts →
+    ∃ pre i rest, ops = pre ++ some i :: rest ∧ sts.length = pre.length ∧ res.1 = eraseOps jobs pre
+
+theorem push_done {o : OpsOut} {st : Nat} {sts : List Nat} (h : o.push st = .done sts) :
+    ∃ sts0, o = .done sts0 ∧ sts = st :: sts0 := by
+  cases o <;> simp [OpsOut.push] at h
+  exact ⟨_, rfl, h.symm⟩
+
+theorem push_trapped {o : OpsOut} {st σ : Nat} {sts : List Nat} (h : o.push st = .trapped σ sts) :
+    ∃ sts0, o = .trapped σ sts0 ∧ sts = st :: sts0 := by
+  cases o <;> simp [OpsOut.push] at h
+  obtain ⟨rfl, rfl⟩ := h
+  exact ⟨_, rfl, rfl⟩
+
+theorem push_failed {o : OpsOut} {st : Nat} {sts : List Nat} (h : o.push st = .failed sts) :
+    ∃ sts0, o = .failed sts0 ∧ sts = st :: sts0 := by
+  cases o <;> simp [OpsOut.push] at h
+  exact ⟨_, rfl, h.symm⟩
+
+/-- an operand that is skipped (`NOT_FOUND`): the guarantees of the rest carry over -/
+theorem opsSound_skip {traps jobs : List Nat} {o : Option Nat} {ops : List (Option Nat)}
+    {res : List Nat × TSys × OpsOut} (h : OpsSound traps jobs ops res)
+    (hskip : eraseOps jobs [o] = jobs) (st : Nat) :
+    OpsSound traps jobs (o :: ops) (res.1, res.2.1, res.2.2.push st) := by
+  have herase : ∀ l, eraseOps jobs (o :: l) = eraseOps jobs l := by
+    intro l
+    cases o with
+    | none => rfl
+    | some i => simp only [eraseOps] at hskip ⊢; rw [hskip]
+  refine ⟨h.inv, h.traps_eq, ?_, ?_, ?_⟩
+  · intro sts hs
+    obtain ⟨sts0, h0, rfl⟩ := push_done hs
+    obtain ⟨h1, h2⟩ := h.done_ sts0 h0
+    exact ⟨by simp [h1], by rw [herase]; exact h2⟩
+  · intro σ sts hs
+    obtain ⟨sts0, h0, rfl⟩ := push_trapped hs
+    obtain ⟨h1, pre, i, rest, h2, h3, h4, h5⟩ := h.trapped_ σ sts0 h0
+    exact ⟨h1, o :: pre, i, rest, by simp [h2], by simp [h3], by rw [herase]; exact h4, h5⟩
+  · intro sts hs
+    obtain ⟨sts0, h0, rfl⟩ := push_failed hs
+    obtain ⟨pre, i, rest, h2, h3, h4⟩ := h.failed_ sts0 h0
+    exact ⟨o :: pre, i, rest, by simp [h2], by simp [h3], by rw [herase]; exact h4⟩
+
+theorem tawaitJobs_sound (run : TSys → TSys) (hrun : ∀ x, TSteps x (run x)) (jobs : List Nat) (t : TSys)
+    (ops : List (Option Nat)) (h : TInv t) : OpsSound t.traps jobs ops (tawaitJobs run jobs t ops) := by
+  induction ops generalizing jobs t with
+  | nil =>
+    refine ⟨h, rfl, ?_, ?_, ?_⟩
+    · intro sts hs; simp [tawaitJobs] at hs; subst hs; exact ⟨rfl, rfl⟩
+    · intro σ sts hs; simp [tawaitJobs] at hs
+    · intro sts hs; simp [tawaitJobs] at hs
+  | cons o ops ih =>
+    cases o with
+    | none =>
+      simp only [tawaitJobs]
+      exact opsSound_skip (ih jobs t h) rfl _
+    | some i =>
+      simp only [tawaitJobs]
+      split
+      · rename_i hmem
+        have hu : TInv (run (t.next i)) := tinv_steps (hrun _) (tinv_next h i)
+        have htr : (run (t.next i)).traps = t.traps :=
+          ((tsteps_frame (hrun (t.next i))).2.1).trans (next_traps t i)
+        split
+        · rename_i j r hout
+          have hrec := ih (jobs.erase i) (run (t.next i)) hu
+          rw [htr] at hrec
+          refine ⟨hrec.inv, hrec.traps_eq, ?_, ?_, ?_⟩
+          · intro sts hs
+            obtain ⟨sts0, h0, rfl⟩ := push_done hs
+            obtain ⟨h1, h2⟩ := hrec.done_ sts0 h0
+            exact ⟨by simp [h1], h2⟩
+          · intro σ sts hs
+            obtain ⟨sts0, h0, rfl⟩ := push_trapped hs
+            obtain ⟨h1, pre, i', rest, h2, h3, h4, h5⟩ := hrec.trapped_ σ sts0 h0
+            exact ⟨h1, some i :: pre, i', rest, by simp [h2], by simp [h3], h4, h5⟩
+          · intro sts hs
+            obtain ⟨sts0, h0, rfl⟩ := push_failed hs
+            obtain ⟨pre, i', rest, h2, h3, h4⟩ := hrec.failed_ sts0 h0
+            exact ⟨some i :: pre, i', rest, by simp [h2], by simp [h3], h4⟩
+        · rename_i σ hout
+          refine ⟨hu, htr, ?_, ?_, ?_⟩
+          · intro sts hs; simp at hs
+          · intro σ' sts hs
+            simp at hs
+            obtain ⟨rfl, rfl⟩ := hs
+            exact ⟨by rw [← htr]; exact hu.trap_ok σ hout, [], i, ops, rfl, rfl, rfl, hmem⟩
+          · intro sts hs; simp at hs
+        · refine ⟨hu, htr, ?_, ?_, ?_⟩
+          · intro sts hs; simp at hs
+          · intro σ' sts hs; simp at hs
+          · intro sts hs
+            simp at hs; subst hs
+            exact ⟨[], i, ops, rfl, rfl, rfl⟩
+      · rename_i hmem
+        exact opsSound_skip (ih jobs t h) (by simp [eraseOps, List.erase_of_not_mem hmem]) _
+
+/-! ### `wait` without operands -/
+
+theorem tstep_log_suffix {t t' : TSys} (l : TLabel) (hs : tstep t l = some t') :
+    ∃ l0, t'.sys.log = l0 ++ t.sys.log := by
+  cases l with
+  | parent =>
+    simp only [tstep, tparentStep] at hs
+    split at hs
+    · simp at hs
+    · split at hs
+      · simp at hs; subst hs; exact ⟨[], rfl⟩
+      · split at hs
+        · split at hs
+          · simp at hs; subst hs; exact ⟨_, rfl⟩
+          · split at hs <;> (simp at hs; subst hs; exact ⟨_, rfl⟩)
+        · simp at hs; subst hs; exact ⟨[], rfl⟩
+        · simp at hs; subst hs; exact ⟨[], rfl⟩
+      · split at hs
+        · split at hs <;> (simp at hs; subst hs; exact ⟨[], rfl⟩)
+        · simp at hs
+      · simp at hs
+  | child i =>
+    simp only [tstep, tchildStep] at hs
+    split at hs
+    · split at hs
+      · simp at hs
+      · cases hcs : childStep t.sys i with
+        | none => simp [hcs] at hs
+        | some s' =>
+          simp [hcs] at hs; subst hs
+          exact ⟨[], by simp [(childStep_frame hcs).2.1]⟩
+    · simp at hs
+  | send k =>
+    simp only [tstep, tsendStep] at hs
+    split at hs
+    · split at hs
+      · split at hs
+        · simp at hs; subst hs; exact ⟨[], rfl⟩
+        · simp at hs
+      · simp at hs
+    · simp at hs
+
+theorem jobDone_append {l0 log : List (Nat × Result)} {j : Nat} (h : (jobDone log j).isSome = true) :
+    (jobDone (l0 ++ log) j).isSome = true := by
+  unfold jobDone at h ⊢
+  rw [List.find?_append]
+  cases hf : List.find? (fun e => e.1 == j) l0 with
+  | some e => simp
+  | none => simpa using h
+
+/-- a recorded final state stays recorded -/
+theorem jobDone_steps {t u : TSys} {j : Nat} (h : TSteps t u) (hd : (jobDone t.sys.log j).isSome = true) :
+    (jobDone u.sys.log j).isSome = true := by
+  induction h with
+  | refl => exact hd
+  | tail l _ hs ih =>
+    obtain ⟨l0, hl⟩ := tstep_log_suffix l hs
+    rw [hl]; exact jobDone_append ih
+
+theorem call_traps (t : TSys) : t.call.traps = t.traps := rfl
+
+/-- what a `wait` without operands guarantees whatever the scheduler does: the state stays invariant; `Ok` means
+    exit status 0, an empty job table and every job recorded as finished; `Trapped(σ)` means σ has a trap action,
+    and NO JOB IS FORGOTTEN: every job of the table is still in the table (it is not recorded as finished: a later
+    `wait` will wait for it) or has been recorded as finished (this `wait` has consumed its status, as a `wait`
+    without operands does) -/
+structure AllSound (traps jobs : List Nat) (res : List Nat × TSys × OpsOut) : Prop where
+  inv : TInv res.2.1
+  traps_eq : res.2.1.traps = traps
+  sub : ∀ j, j ∈ res.1 → j ∈ jobs
+  kept : ∀ j, j ∈ jobs → j ∈ res.1 ∨ (jobDone res.2.1.sys.log j).isSome = true
+  done_ : ∀ sts, res.2.2 = .done sts → sts = [YashModel.Generated.ProcConsts.EXIT_SUCCESS] ∧ res.1 = []
+  trapped_ : ∀ σ sts, res.2.2 = .trapped σ sts → σ ∈ traps ∧ sts = [] ∧ res.1 ≠ []
+
+theorem mem_unfinished {jobs : List Nat} {log : List (Nat × Result)} {j : Nat} :
+    j ∈ unfinished jobs log ↔ j ∈ jobs ∧ jobDone log j = none := by
+  simp [unfinished, List.mem_filter]
+
+theorem kept0 (jobs : List Nat) (log : List (Nat × Result)) :
+    ∀ j, j ∈ jobs → j ∈ unfinished jobs log ∨ (jobDone log j).isSome = true := by
+  intro j hj
+  cases hd : jobDone log j with
+  | none => exact Or.inl (mem_unfinished.mpr ⟨hj, hd⟩)
+  | some r => exact Or.inr rfl
+
+theorem tawaitAll_log_mono (run : TSys → TSys) (hrun : ∀ x, TSteps x (run x)) (k : Nat) (jobs : List Nat)
+    (t : TSys) (j : Nat) (hd : (jobDone t.sys.log j).isSome = true) :
+    (jobDone (tawaitAll run k jobs t).2.1.sys.log j).isSome = true := by
+  induction k generalizing jobs t with
+  | zero => simpa [tawaitAll] using hd
+  | succ k ih =>
+    simp only [tawaitAll]
+    have hu : (jobDone (run t.call).sys.log j).isSome = true :=
+      jobDone_steps (hrun t.call) (by simpa [TSys.call] using hd)
+    split
+    · exact hd
+    · split
+      · exact ih _ _ hu
+      · exact hu
+      · exact hu
+
+theorem tawaitAll_sound (run : TSys → TSys) (hrun : ∀ x, TSteps x (run x)) (k : Nat) (jobs : List Nat) (t : TSys)
+    (h : TInv t) : AllSound t.traps jobs (tawaitAll run k jobs t) := by
+  induction k generalizing jobs t with
+  | zero =>
+    have hkept0 := kept0 jobs t.sys.log
+    simp only [tawaitAll]
+    exact ⟨h, rfl, fun j hj => (mem_unfinished.mp hj).1, hkept0, by intro sts hs; simp at hs,
+      by intro σ sts hs; simp at hs⟩
+  | succ k ih =>
+    have hkept0 := kept0 jobs t.sys.log
+    simp only [tawaitAll]
+    split
+    · rename_i hnil
+      refine ⟨h, rfl, by intro j hj; simp at hj, ?_, by intro sts hs; simp at hs; exact ⟨hs.symm, rfl⟩,
+        by intro σ sts hs; simp at hs⟩
+      intro j hj
+      rcases hkept0 j hj with h1 | h1
+      · rw [hnil] at h1; simp at h1
+      · exact Or.inr h1
+    · rename_i j0 js hcons
+      have hu : TInv (run t.call) := tinv_steps (hrun _) (tinv_call h)
+      have htr : (run t.call).traps = t.traps := ((tsteps_frame (hrun t.call)).2.1).trans (call_traps t)
+      have hlogmono : ∀ j, (jobDone t.sys.log j).isSome = true → (jobDone (run t.call).sys.log j).isSome = true :=
+        fun j hd => jobDone_steps (hrun t.call) (by simpa [TSys.call] using hd)
+      have hsub : ∀ j, j ∈ j0 :: js → j ∈ jobs := by
+        intro j hj; rw [← hcons] at hj; exact (mem_unfinished.mp hj).1
+      have hkept : ∀ j, j ∈ jobs → j ∈ j0 :: js ∨ (jobDone (run t.call).sys.log j).isSome = true := by
+        intro j hj
+        rcases hkept0 j hj with h1 | h1
+        · left; rw [← hcons]; exact h1
+        · exact Or.inr (hlogmono j h1)
+      split
+      · -- `Ok(())`: look at the job list again
+        have hrec := ih (j0 :: js) (run t.call) hu
+        rw [htr] at hrec
+        refine ⟨hrec.inv, hrec.traps_eq, fun j hj => hsub j (hrec.sub j hj), ?_, hrec.done_, hrec.trapped_⟩
+        intro j hj
+        rcases hkept j hj with h1 | h1
+        · exact hrec.kept j h1
+        · exact Or.inr (tawaitAll_log_mono run hrun k (j0 :: js) (run t.call) j h1)
+      · rename_i σ hout
+        refine ⟨hu, htr, hsub, hkept, by intro sts hs; simp at hs, ?_⟩
+        intro σ' sts hs
+        simp at hs
+        obtain ⟨rfl, rfl⟩ := hs
+        exact ⟨by rw [← htr]; exact hu.trap_ok σ hout, rfl, by simp⟩
+      · exact ⟨hu, htr, hsub, hkept, by intro sts hs; simp at hs, by intro σ sts hs; simp at hs⟩
+
 
 end YashModel.Proc
